@@ -152,6 +152,13 @@ def _run(ctx, pid, thorough, rng, exe, tmp):
                 n, t2, d = g.typed_uplink(rng, s, ty, variant=mode)
                 s.up(n, t2, d)
             s.flush(); sessions.append(s.end())
+    if pid == "C06":
+        # unbounded step (auxiliary, Apalache): the queue automaton's bound / order / no-duplicate invariant is inductive for
+        # any number of deliveries (DispatchInd; quick QMax = 32, thorough 64; the library's 128 was run once: 914 s, no error)
+        ok, text = tlc.apalache_inductive("DispatchInd.tla", 64 if thorough else 32, timeout=900)
+        ctx.cov["apalache_inductive_invariant"] = text[:300]
+        if ok is False: ctx.infra_fail("DispatchInd: the inductive invariant is violated (specification defect): " + text[-600:])
+        elif ok is None: ctx.note("Apalache step skipped: " + text[:200])
     # queue bound (C06): fill levels around 128 without reading, then single reads and a drain
     if pid == "C06":
         for fill in ((126, 130) if not thorough else (1, 127, 128, 129, 200)):
